@@ -259,3 +259,13 @@ package utils
 //@   loop 1 invariant coefficients.ref == coefficients0.ref && len(coefficients) >= 1 && coefficients.off + len(coefficients) == coefficients0.off + len(coefficients0) && len(coefficients) <= len(coefficients0) && cap(coefficients) >= len(coefficients)
 //@   loop 1 invariant forall k int :: 0 <= k && k < len(coefficients0) - len(coefficients) ==> coefficients0[k] == 0
 //@   loop 1 decreases len(coefficients)
+
+// ---------------------------------------------------------------- field construction (shape)
+// Used by callers that only need the size of the field they asked for. What the tables contain is
+// table lemma gf/fields (every field the library constructs, compared exhaustively with
+// carry-less arithmetic); the body (two table-filling loops) is not verified here.
+//@ func NewGaloisField
+//@   abstract
+//@   trusted
+//@   requires fieldSize >= 2
+//@   ensures result != nil && fresh(result) && result.Size == fieldSize && result.Base == b
